@@ -331,12 +331,35 @@ def season_work(chunk):
         tz = SeasonTZ(winter, summer, names)
         vals = [datetime.datetime(2021, 1, 15, 12, 0, 0, 500, tzinfo=tz), datetime.datetime(2021, 7, 15, 12, 0, 0, 999600, tzinfo=tz),
                 datetime.datetime(2021, 12, 31, 23, 59, 59, 999999, tzinfo=tz), datetime.datetime(2022, 4, 1, 0, 0, 0, 0, tzinfo=tz)]
+        # the last half millisecond before each change: rounding carries the digits across it, the offset stays the value's own
+        vals += [datetime.datetime(2021, 9, 30, 23, 59, 59, 999600, tzinfo=tz), datetime.datetime(2022, 3, 31, 23, 59, 59, 999500, tzinfo=tz)]
         if order:
             vals = vals[::-1]
         for v in vals:
             m = winter if not (4 <= v.month <= 9) else summer
             check_write(t, DT, TM, "datetime", v, m)
+        # the repeated hour after a fall-back (zoneinfo / dateutil semantics: `fold` picks the second pass)
+        ftz = FoldTZ(winter, summer, names)
+        for fold in ((0, 1) if not order else (1, 0)):
+            for us in (0, 250400, 999600):
+                v = datetime.datetime(2021, 11, 7, 1, 30, 0, us, tzinfo=ftz, fold=fold)
+                check_write(t, DT, TM, "datetime", v, winter if fold else summer)
     return t
+
+
+class FoldTZ(SeasonTZ):
+    """summer time until 2021-11-07 02:00 wall time, when clocks go back one hour: 01:00-01:59 occurs twice and `fold`
+    says which pass a value belongs to"""
+
+    def _summer(self, dt):
+        if dt is None:
+            return False
+        wall = dt.replace(tzinfo=None)
+        if wall < datetime.datetime(2021, 11, 7, 1, 0):
+            return True
+        if wall < datetime.datetime(2021, 11, 7, 2, 0):
+            return dt.fold == 0
+        return False
 
 
 def naive_check(t):
@@ -413,7 +436,7 @@ def run(ctx):
         "zone names rotating over {none,:EST,:Any Name}; plain notations x all dates x times x ms; rejects: every single-field corruption "
         "(drop/add digit or letter at every digit position, field out of range, unclosed bracket) of "
         f"{len(bases)} valid texts; write: every offset x boundary datetimes x 9 sub-ms parts x tzinfo variants, lexical rule + instant "
-        "rounded to nearest ms + write-then-read within 500 us; 6 zones whose offset depends on the date, values on both sides of the change written through one shared tzinfo object in both orders; every case is a distinct text/value (all counted non-trivial)",
+        "rounded to nearest ms + write-then-read within 500 us; 6 zones whose offset depends on the date, values on both sides of the change, in its last half millisecond, and in both passes of a repeated hour (fold) written through one shared tzinfo object in both orders; every case is a distinct text/value (all counted non-trivial)",
         "offsets": len(OFFSETS),
         "exhaustive": True,
         "distinct_outcomes": len(tally.outcomes),
